@@ -6,9 +6,15 @@ PARALLEL_UNITS = 6
 VERUS_UNITS = {
     'i64-ast': dict(unit='i64-ast', rlimit=30),
     'i64-parser': dict(unit='i64-parser', rlimit=30),
+    'f64-parser': dict(unit='f64-parser', rlimit=30),
+    'number-parser': dict(unit='number-parser', rlimit=30),
+    'decimal-parser': dict(unit='decimal-parser', rlimit=30),
+    'complex-parser': dict(unit='complex-parser', rlimit=30),
 }
 
 KANI_GROUPS = {}
+
+PARSERS = ['i64-parser', 'f64-parser', 'number-parser', 'decimal-parser', 'complex-parser']
 
 PARSER_ASSUME = [
     'A-tokenizer-shape: the token sequence handed to the parser ends with Eof, has no Eof before that and no two adjacent number literals (obligation of the tokenizer units)',
@@ -17,7 +23,34 @@ PARSER_ASSUME = [
     'arm splitting: match arms are verified in separate runs, every other arm pruned with assume(false); the runs together cover all arms',
 ]
 
+AST_ASSUME = [
+    'A-std-int: assumed contracts of i64::checked_neg/checked_abs/checked_pow/unsigned_abs/signum/wrapping_rem (vstd has none); vstd contracts of checked_add/sub/mul/div, min, max, RangeInclusive::contains',
+    'A-libm: f64::sqrt/powf/ln/log/exp are uninterpreted (any result); int<->float casts as specified by vstd',
+    'A-sort: Vec::sort_by(|a, b| a.partial_cmp(b).unwrap()) on i64 sorts (T12 helper verif_sort)',
+    'A-veclen: a Vec never holds more than i64::MAX elements (axiom_vec_len_fits)',
+    'A-64bit: usize is 64 bits wide',
+    'T1 (error type), T2 (derived Clone of Node is structural), T5, T12, T13, T14 extraction rewrites (DESIGN 4.2)',
+]
+ALL_V = ['i64-ast'] + PARSERS
+
 PLAN = {
+    'C01': dict(verus=ALL_V, level='proof', assumptions=AST_ASSUME + PARSER_ASSUME + ['A-stack, A-alloc: stack exhaustion and allocation failure are not modelled'],
+                unclaimed=['tokenizers (L1)', 'eval of f64 / number / decimal / complex (L3)', 'eval_* glue and Number::from (L4)']),
+    'C02': dict(verus=ALL_V, level='proof', assumptions=AST_ASSUME + PARSER_ASSUME,
+                unclaimed=['tokenizers (L1)', 'value-dependent loops of eval_f64 / eval_number / eval_decimal (factorial, Lambert W, ilog)',
+                           'the global bound 4096 + 256*len is derived on paper from the per-function measures, not machine-checked']),
+    'C10': dict(verus=ALL_V, level='proof', assumptions=AST_ASSUME + PARSER_ASSUME,
+                unclaimed=['function names / aliases (tokenizer keyword arms)', 'numerical accuracy of libm-backed functions, gamma, Lambert W',
+                           'eval of f64 / number / decimal / complex']),
+    'C11': dict(verus=ALL_V, level='proof', assumptions=AST_ASSUME + PARSER_ASSUME,
+                unclaimed=['aggregates of eval_f64 / eval_number / eval_decimal (L3)']),
+    'C13': dict(verus=PARSERS, level='proof', assumptions=PARSER_ASSUME,
+                unclaimed=['whitespace removal (eval_* glue)', 'alias spellings (tokenizer keyword arms)']),
+    'C14': dict(verus=ALL_V, level='proof', assumptions=AST_ASSUME + PARSER_ASSUME,
+                unclaimed=['eval_* glue passing Some(placeholder)', 'leaf evaluation in eval_f64 / number / decimal / complex']),
+    'C20': dict(verus=ALL_V, level='proof', assumptions=AST_ASSUME + PARSER_ASSUME,
+                unclaimed=['eval of f64 / number / decimal / complex']),
+
     'C06': dict(
         verus=['i64-ast'], kani=[],
         level='proof',
@@ -28,9 +61,9 @@ PLAN = {
         ],
         unclaimed=[],
     ),
-    'C03': dict(verus=['i64-parser'], level='proof', assumptions=PARSER_ASSUME, unclaimed=[]),
-    'C04': dict(verus=['i64-parser'], level='proof', assumptions=PARSER_ASSUME, unclaimed=[]),
-    'C12': dict(verus=['i64-parser'], level='proof', assumptions=PARSER_ASSUME, unclaimed=[]),
+    'C03': dict(verus=PARSERS, level='proof', assumptions=PARSER_ASSUME, unclaimed=[]),
+    'C04': dict(verus=PARSERS, level='proof', assumptions=PARSER_ASSUME, unclaimed=[]),
+    'C12': dict(verus=PARSERS, level='proof', assumptions=PARSER_ASSUME, unclaimed=[]),
 }
 
 
@@ -40,3 +73,33 @@ def verus_units(pid, tier):
 
 def kani_groups(pid, tier):
     return PLAN[pid].get('kani', []) + (PLAN[pid].get('kani_thorough', []) if tier == 'thorough' else [])
+
+
+# ---- texts for MANIFEST.json -------------------------------------------------------------------------
+_V = 'Verus proves, for all inputs and with no bound, the contracts spliced onto the real function text extracted from /repo on every run; '
+LEVEL_TEXT = {
+    'C01': _V + 'owned obligations = every implicit panic obligation (arithmetic overflow, division by zero, shift range, index bounds, unwrap/callee preconditions) of eval_i64::ast and of all five parsers.',
+    'C02': _V + 'owned obligations = the decreases clauses of every loop and every (mutual) recursion of eval_i64::ast (eval, gcd, factorial, aggregate folds) and of all five parsers (measure: remaining tokens).',
+    'C03': _V + 'every Parser method of the five evaluators refines a table-driven specification parser (Ok iff the spec parser accepts and the whole stream is consumed); owned: parse (Eof), check_paren, argument-list methods, reject exits.',
+    'C04': _V + 'get_oper_prec equals the precedence table, generate_ast is precedence climbing with strict <, every binary / prefix / postfix / bracket arm builds the node and uses the operand level the tables give.',
+    'C06': _V + 'eval_i64::ast::eval returns the exact integer of the mathematical specification spec_eval or Err, for all trees; overflow obligations of every arithmetic arm are discharged.',
+    'C10': _V + 'arity and argument order of every function in all five parsers (refinement to the function table); exact integer functions of eval_i64 (abs, sgn, n!, mod, pow, exp2 mapping).',
+    'C11': _V + 'eval_i64 aggregates (min max avg med gcd lcm) for any arity against fold specifications over the sequence of argument values, error propagation; variadic argument lists and the empty-list policy in the four parsers that have them.',
+    'C12': _V + 'implicit_multiply, its call sites and parse (Eof) refine the juxtaposition rule of the specification parser (trigger sets, operand level Multiplicative, node order) in all five parsers.',
+    'C13': _V + 'the notation arms (floor/ceil brackets, mod/pow functions, superscripts, prefix +, redundant brackets) build the same nodes as their synonyms, by refinement to the tables, in all five parsers.',
+    'C14': _V + 'the `@` arm yields the leaf holding the stored placeholder and takes no part in implicit multiplication; Parser::new stores the placeholder; the eval_i64 leaf returns its payload.',
+    'C20': _V + 'a bracketed group is parsed from level DefaultZero independently of its context (sp_group); eval_i64::eval is a function of the children\'s values (its contract against spec_eval).',
+}
+DESIGN_REF = {}
+TECHNIQUE = {}
+NOT_APPLICABLE = {
+    'C05': 'not yet covered: eval_f64::ast cannot be taken by Verus (no float theory, unary minus on floats rejected); the per-constructor Kani obligations of DESIGN 6.3 are not built yet',
+    'C07': 'not yet covered: eval_decimal::ast against the rust_decimal contract header is not built yet',
+    'C08': 'not yet covered: eval_complex::ast against the num_complex contract header is not built yet',
+    'C09': 'not yet covered: eval_number::ast per-constructor Kani obligations are not built yet',
+    'C15': 'not yet covered: relational Kani obligations between evaluators are not built yet',
+    'C16': 'contracts speak about one call: neither installed verifier can quantify over unbounded call histories or thread interleavings (Kani has no threads; Verus would need permission types around code that has no shared state to annotate)',
+    'C17': 'not yet covered: per-feature-subset re-verification is not built yet',
+    'C18': 'not yet covered: Kani full-domain harness for Number::from is not built yet',
+    'C19': 'not yet covered: tokenizer literal arms (L1) are not under contract yet',
+}
